@@ -459,6 +459,35 @@ def _new_dim(W, S, new):
     return W.dim(l, name=name_of(l, True), tag=l + "_twin"), True
 
 
+def check_lookups(W, name, ds, expected, before):
+    """every way of asking the set about a dimension agrees with its list: membership, lookup by letter / name,
+    position; dimensions that are no longer (or never were) in the list are unknown to all of them"""
+    ok, why = True, ""
+    for pos, d in enumerate(expected):
+        for key in (d.letter, d.name):
+            try:
+                good = (key in ds) and (ds[key] is d) and ds.index(key) == pos
+            except Exception as e:  # noqa: BLE001
+                good, why = False, f"{key}: {type(e).__name__}"
+            if not good:
+                ok, why = False, why or f"lookup of {key!r} disagrees with the list"
+    for d in before:
+        if any(d is e for e in expected) or any(d.letter == e.letter or d.name == e.name for e in expected):
+            continue
+        for key in (d.letter, d.name):
+            known = key in ds
+            try:
+                ds[key]
+                found = True
+            except KeyError:
+                found = False
+            except Exception as e:  # noqa: BLE001
+                found, why = True, f"{key}: {type(e).__name__}"
+            if known or found:
+                ok, why = False, why or f"{key!r} is still known to the set after it left the list"
+    W.prove(f"{name}.lookups_agree_with_the_list", ok, detail=why)
+
+
 def check_mutation(W, name, S, out, inplace, expected, clash, snap, exc=ValueError):
     xs_before = snap[0][2]
     if clash:
@@ -471,8 +500,11 @@ def check_mutation(W, name, S, out, inplace, expected, clash, snap, exc=ValueErr
         W.prove(f"{name}.view", len(S.x.dim_list) == len(expected) and all(a is b for a, b in zip(S.x.dim_list, expected)), detail=f"got {[d.letter for d in S.x.dim_list]}")
         letters = [d.letter for d in S.x.dim_list]
         W.prove(f"{name}.letters_unique", len(set(letters)) == len(letters))
-        # undo for the next operation of the unit
-        S.x.dim_list[:] = xs_before
+        check_lookups(W, name, S.x, expected, xs_before)
+        # undo for the next operation of the unit: a fresh set over the original list (no state of the mutated
+        # object is carried into the next operation)
+        S.x = mk_set(W, xs_before)
+        snap[0] = (S.x, S.x.dim_list, list(S.x.dim_list))
     else:
         check_result_set(W, name, out, expected, snap)
         check_frame(W, name, snap)
